@@ -134,6 +134,11 @@ C14_SmoothInteriorIsWindowMean == Is("smooth") => SmoothInteriorIsWindowMean(exp
 Other(x) == [k \in DOMAIN x |-> OfInt((x[k][1] * x[k][1] + 3 * k) % 7)]     \* a second array for the linearity laws
 C14_SmoothLinear == Is("smooth") => SmoothLinear(exp.val, XR, Other(XR), OfInt(-4096), R(5, 3), c.w, c.flag)
 C14_SmoothSupport == Is("smooth") => SmoothSupport(exp.val, XR, c.w, c.flag)
+C14_SmoothScales == Is("smooth") => SmoothScales(exp.val, XR, 13000, c.w, c.flag)
+C14_FormIndependent == (IsCall /\ Len(c.x) <= 2) => FormIndependent(c.fn, XR, c.shape, c.w, c.flag, c.d)
+C14_MedianScales == Is("median") => MedianScales(exp.val[1], XR, c.flag, 13000)
+C14_RunMed1Scales == Is("runmed1") => RunMed1Scales(exp.val, XR, c.w, 13000)
+C14_RunMed2Scales == Is("runmed2") => RunMed2Scales(exp.val, XR, c.shape, c.w, 50)
 C14_MedianTwoPhrasings == Is("median") => MedianTwoPhrasings(exp.val[1], XR, c.flag)
 C14_MedianIsAnElement == Is("median") => MedianIsAnElement(exp.val[1], XR, c.flag)
 C14_MedianEvenFlag == Is("median") => MedianEvenFlagOnlyForEvenCounts(exp.val[1], XR, c.flag)
@@ -163,5 +168,6 @@ C14_BlockMeanPreservesMean == Ok("rebin") => BlockMeanPreservesMean(exp.val, XR,
 C14_RebinAxesCommute == Ok("rebin") => RebinAxesCommute(exp.val, XR, c.shape, c.d, c.flag)
 C14_RebinLinear == (Ok("rebin") /\ Prod(c.d) <= 72) => RebinLinear(exp.val, XR, Other(XR), OfInt(-32), OfInt(3), c.shape, c.d, c.flag)
 C14_RebinWeightsArePartition == Ok("rebin") => RebinWeightsArePartition(c.shape, c.d, c.flag)
+C14_RebinScales == (Ok("rebin") /\ Prod(c.d) <= 72) => RebinScales(exp.val, XR, 300, c.shape, c.d, c.flag)
 C14_RebinRejects == Is("rebin") => RebinRejects(exp.err, c.shape, c.d)
 =============================================================================
